@@ -115,7 +115,11 @@ class TokenFile:
     def delete(self):
         if self.path.is_file():
             logging.debug("Deleting token file %s", self.path)
-            self.path.unlink()
+            try:
+                self.path.unlink()
+            except FileNotFoundError:
+                # Another process watching the job removed it in the meantime
+                pass
 
     def watch(self):
         """Watch the matching process"""
